@@ -15,6 +15,7 @@ pub mod fieldvalue;
 #[cfg(feature = "hooks")]
 pub mod filters;
 pub mod frontend;
+pub mod hints;
 pub mod ir;
 #[cfg(feature = "hooks")]
 pub mod lattice;
